@@ -269,3 +269,52 @@ def desugar_for_continue(text):
         if done:
             return text, n
     return text, n
+
+
+# ---------------------------------------------------------------------------------------------------
+# D32 -- `str` methods generic over `Pattern`, called with a char / string LITERAL, and the whitespace trims
+_CHAR_LIT = r"'(?:[^'\\\n]|\\u\{[0-9a-fA-F]{1,6}\}|\\x[0-9a-fA-F]{2}|\\.)'"
+_STR_LIT = r'"(?:[^"\\\n]|\\.)*"'
+_PAT_METHODS = ('starts_with', 'ends_with', 'strip_prefix', 'strip_suffix', 'trim_end_matches', 'trim_start_matches', 'contains')
+_STR_OK = ('starts_with', 'ends_with', 'strip_prefix', 'strip_suffix')
+
+
+def desugar_str_patterns(text):
+    """`RECV.m('c')` -> `crate::oq3_str_m_char(&(RECV), 'c')`, `RECV.m("lit")` -> `crate::oq3_str_m_str(&(RECV), "lit")`,
+    `RECV.trim_end()` / `.trim_start()` -> `crate::oq3_str_trim_end(&(RECV))`: the stand-ins of contracts/std_str_specs.rs
+    (each calls the std method it stands for).  Only literal patterns; anything else is left alone."""
+    log = []
+    guard = 0
+    pat = re.compile(r'\.\s*(?:(%s)\s*\(\s*(%s|%s)\s*\)|(trim_end|trim_start)\s*\(\s*\))' % ('|'.join(_PAT_METHODS), _CHAR_LIT, _STR_LIT))
+    pos = 0
+    while guard < 60:
+        guard += 1
+        rf = RustFile('<fn>', text)
+        hit = None
+        for m in pat.finditer(text, pos):
+            if rf.code[m.start()]:
+                hit = m
+                break
+        if hit is None:
+            break
+        pos = hit.start() + 1
+        start = _recv_start(text, hit.start(), rf.code)
+        if start is None:
+            continue
+        recv = text[start:hit.start()].strip()
+        if hit.group(3):
+            new = 'crate::oq3_str_%s(&(%s))' % (hit.group(3), recv)
+            what = '.%s()' % hit.group(3)
+        else:
+            meth, lit = hit.group(1), hit.group(2)
+            if lit.startswith('"'):
+                if meth not in _STR_OK:
+                    continue
+                new = 'crate::oq3_str_%s_str(&(%s), %s)' % (meth, recv, lit)
+            else:
+                new = 'crate::oq3_str_%s_char(&(%s), %s)' % (meth, recv, lit)
+            what = '.%s(%s)' % (meth, lit)
+        text = text[:start] + new + text[hit.end():]
+        pos = start + len(new)
+        log.append('`%s%s` routed to the stand-in of contracts/std_str_specs.rs (literal pattern)' % (recv[-40:], what))
+    return text, log
